@@ -42,6 +42,20 @@ type Contracts struct {
 	Funcs  map[string]*Contract
 	Guards []*Guard
 	Order  []string
+	// Containers: "pkg.Struct.field" -> invariant on the elements held by that map/chan/slice field
+	// (currently only "nonnil"). Checked at every write, assumed at every read.
+	Containers map[string]string
+	// Preds are definitional macros: pred name(a, b) = expr
+	Preds map[string]*Pred
+	// TypeInvs: "pkg.Type" -> invariant over "self", maintained by every method of the type
+	// (visible-state semantics): assumed for the receiver at calls from outside the type.
+	TypeInvs map[string]Clause
+}
+
+type Pred struct {
+	Name   string
+	Params []string
+	Body   Clause
 }
 
 func (c *Contract) Flag(k string) bool { _, ok := c.Flags[k]; return ok }
@@ -184,7 +198,7 @@ func parseClause(text string) (Clause, error) {
 // ParseContracts reads every "//@" line of the given files (name -> text). Keys are fully
 // qualified: pkg.Func, pkg.Type.Method (pkg = last import path element; lib/go is "lib").
 func ParseContracts(files map[string]string) (*Contracts, error) {
-	cs := &Contracts{Funcs: map[string]*Contract{}}
+	cs := &Contracts{Funcs: map[string]*Contract{}, Containers: map[string]string{}, Preds: map[string]*Pred{}, TypeInvs: map[string]Clause{}}
 	var names []string
 	for n := range files {
 		names = append(names, n)
@@ -222,6 +236,46 @@ func ParseContracts(files map[string]string) (*Contracts, error) {
 				cs.Funcs[key] = cur
 				cs.Order = append(cs.Order, key)
 				curGuard = nil
+			case "typeinv":
+				if len(fields) < 3 {
+					return nil, fail(fmt.Errorf("bad typeinv"))
+				}
+				cl, err := parseClause(strings.TrimSpace(rest[len(fields[1]):]))
+				if err != nil {
+					return nil, fail(err)
+				}
+				cs.TypeInvs[fields[1]] = cl
+				cur, curGuard = nil, nil
+			case "pred":
+				eqi := strings.Index(rest, "=")
+				lp, rp := strings.Index(rest, "("), strings.Index(rest, ")")
+				if eqi < 0 || lp < 0 || rp < lp || rp > eqi {
+					return nil, fail(fmt.Errorf("bad pred"))
+				}
+				pd := &Pred{Name: strings.TrimSpace(rest[:lp])}
+				for _, a := range strings.Split(rest[lp+1:rp], ",") {
+					if a = strings.TrimSpace(a); a != "" {
+						pd.Params = append(pd.Params, a)
+					}
+				}
+				cl, err := parseClause(rest[eqi+1:])
+				if err != nil {
+					return nil, fail(err)
+				}
+				pd.Body = cl
+				cs.Preds[pd.Name] = pd
+				cur, curGuard = nil, nil
+			case "container":
+				if len(fields) < 3 {
+					return nil, fail(fmt.Errorf("bad container clause"))
+				}
+				for _, w := range fields[2:] {
+					if w != "nonnil" && w != "open" {
+						return nil, fail(fmt.Errorf("bad container invariant %q", w))
+					}
+				}
+				cs.Containers[fields[1]] = strings.Join(fields[2:], " ")
+				cur, curGuard = nil, nil
 			case "guard":
 				parts := strings.SplitN(rest, " protects ", 2)
 				if len(parts) != 2 {
